@@ -458,6 +458,7 @@ exit:
 type iptr struct {
 	insts   []inst
 	capture int
+	open    []int // first slots of the captures that are not closed yet
 }
 
 func compilePattern(p pattern, ps ...*iptr) []inst {
@@ -465,7 +466,7 @@ func compilePattern(p pattern, ps ...*iptr) []inst {
 	toplevel := false
 	if len(ps) == 0 {
 		toplevel = true
-		ptr = &iptr{[]inst{inst{opSave, nil, 0, -1}}, 2}
+		ptr = &iptr{insts: []inst{inst{opSave, nil, 0, -1}}, capture: 2}
 	} else {
 		ptr = ps[0]
 	}
@@ -505,11 +506,22 @@ func compilePattern(p pattern, ps ...*iptr) []inst {
 		c0, c1 := ptr.capture, ptr.capture+1
 		ptr.capture += 2
 		ptr.insts = append(ptr.insts, inst{opSave, nil, c0, -1})
+		ptr.open = append(ptr.open, c0)
 		compilePattern(pat.Pattern, ptr)
+		ptr.open = ptr.open[:len(ptr.open)-1]
 		ptr.insts = append(ptr.insts, inst{opSave, nil, c1, -1})
 	case *bracePattern:
 		ptr.insts = append(ptr.insts, inst{opBrace, nil, pat.Begin, pat.End})
 	case *numberPattern:
+		// %N must refer to a capture that is already closed at this point
+		if pat.N*2 >= ptr.capture {
+			panic(newError(_UNKNOWN, "invalid capture index"))
+		}
+		for _, c := range ptr.open {
+			if c == pat.N*2 {
+				panic(newError(_UNKNOWN, "invalid capture index"))
+			}
+		}
 		ptr.insts = append(ptr.insts, inst{opNumber, nil, pat.N, -1})
 	}
 	if toplevel {
